@@ -103,7 +103,7 @@ tNE == St("NE", <<tSChar, tIN, tSChar>>, FALSE)
 tNS == St("NS", <<tIN, tInt>>, FALSE)
 tDN == St("DN", <<tSChar, tNS>>, FALSE)
 tAR == St("AR", <<Arr(tInt, <<3>>), tDouble>>, FALSE)
-tA2 == St("A2", <<tSChar, Arr(tShort, <<2, 2>>)>>, FALSE)
+tA2 == St("A2", <<tSChar, Arr(tShort, <<2, 3>>)>>, FALSE)
 tCS == St("CS", <<tDouble, tDouble>>, FALSE)
 tSA == St("SA", <<Arr(tChar, <<4>>), tInt>>, FALSE)
 tFC == St("FC", <<tCFloat, tSChar>>, FALSE)
@@ -384,8 +384,8 @@ CS(f, c, p, z) ==
     ELSE [c |-> Err(Ev(c, "unknown-char")), p |-> p]        \* default: __Pyx_BufFmt_ExpectNumber fails (n N e P tab ...)
 
 \* acquisition: format check (ImplRun), then the item-size test (ImplRes)
-ImplRun_(f, r) ==
-     [res |-> IF r.c.res = "run" /\ r.p <= Len(f) THEN "early" ELSE r.c.res, ev |-> r.c.ev]
+ImplRun_(f, r) ==       \* a closing brace at top level makes _CheckString return (non-NULL) before the end of the string
+     [res |-> r.c.res, ev |-> IF r.c.res = "run" /\ r.p <= Len(f) THEN r.c.ev \cup {"stray-close"} ELSE r.c.ev]
 ImplRun(t, f) == ImplRun_(f, CS(f, ImplInit(t), 1, FALSE))
 ImplRes(i, t, isz) == IF i.res = "run" THEN (IF isz = t.size THEN "accept" ELSE "reject")
                       ELSE IF i.res = "err" THEN "reject" ELSE i.res
@@ -419,7 +419,7 @@ Spines(n) ==
     [] n = "DN" -> {<<P("b"), X("7"), OPEN, OPEN, P("b"), P("q"), P("b"), X("7"), CLOSE, P("i"), X("4"), CLOSE>>,
                     <<P("b"), X("7"), P("b"), X("7"), P("q"), P("b"), X("7"), P("i"), X("4")>>}
     [] n = "AR" -> {<<<<"(", "3", ")", "i">>, P("d")>>}
-    [] n = "A2" -> {<<P("b"), <<"(", "2", ",", "2", ")", "h">>>>}
+    [] n = "A2" -> {<<P("b"), <<"(", "2", ",", "3", ")", "h">>>>}
     [] n = "CS" -> {<<P("d"), P("d")>>, <<Z("d")>>}
     [] n = "SA" -> {<<<<"4", "s">>, P("i")>>, <<<<"(", "4", ")", "c">>, P("i")>>}
     [] n = "FC" -> {<<Z("f"), P("b"), X("3")>>}
@@ -431,13 +431,12 @@ Counted == {<<"2", c>> : c \in {"b", "B", "c", "h", "i", "q", "d", "f"}} \cup {<
 Zeros == {<<"0", c>> : c \in {"i", "q", "b", "d", "h", "x"}}
 Pads == {X("1"), P("x"), X("2"), X("3"), X("4"), X("7")}
 Strs == {P("s"), P("p"), <<"1", "s">>, <<"2", "s">>, <<"4", "s">>, <<"4", "p">>}
-Shapes == {<<"(", "3", ")", "i">>, <<"(", "2", ")", "i">>, <<"(", "2", ",", "2", ")", "h">>, <<"(", "2", ",", "2", ")", "i">>,
+Shapes == {<<"(", "3", ")", "i">>, <<"(", "2", ")", "i">>, <<"(", "2", ",", "3", ")", "h">>, <<"(", "3", ",", "2", ")", "h">>, <<"(", "2", ",", "2", ")", "i">>,
            <<"(", "4", ")", "c">>, <<"(", "4", ")", "b">>, <<"(", "3", ")", "Z", "f">>, <<"(", " ", "3", ")", "i">>}
 Neutrals == {<<m>> : m \in Marks} \cup {P(" "), P("\t"), P(":a:")}
 Recs == {<<"T", "{", "b", "}">>, <<"T", "{", "i", "q", "}">>}
 AlphaFull == CodesFull \cup Counted \cup Zeros \cup Pads \cup Strs \cup Shapes \cup Neutrals \cup Recs
-AlphaMedium == {P("b"), P("B"), P("i"), P("q"), P("d"), P("c"), Z("d"), <<"2", "i">>, P("x"), P("s"), <<"(", "2", ")", "i">>,
-                P("="), P(">"), P("n"), P("\t"), <<"0", "i">>, P(":a:"), <<"T", "{", "b", "}">>}
+AlphaMedium == {P("b"), P("B"), P("i"), P("q"), P("d"), Z("d"), <<"2", "i">>, P("x"), P("s"), P("="), <<"0", "i">>, <<"T", "{", "b", "}">>}
 AlphaNarrow == {P("b"), P("i"), P("x"), <<"(", "2", ")", "i">>, <<"2", "q">>, P("="), <<"T", "{", "b", "}">>}
 
 VARIABLES dt,       \* name of the declared dtype
@@ -488,6 +487,10 @@ WrapOne == /\ ned < Edits
 Repeat2 == /\ ned < Edits
            /\ \E i \in (lastpos + 1)..Len(prods) : /\ prods[i] = OPEN
                 /\ Set("Repeat2", [prods EXCEPT ![i] = OPEN2], 1, i, FALSE, ntail)
+\* outside the grammar, but one character: a closing brace that closes nothing
+StrayClose == /\ ned < Edits
+              /\ \E i \in (lastpos + 1)..(Len(prods) + 1) : DepthAt(prods, i) = 0
+                   /\ Set("StrayClose", InsertAt(prods, i, CLOSE), 1, i, FALSE, ntail)
 \* after the format has run past its end: a few more productions from the narrow alphabet
 Tack == /\ atend /\ ntail < MaxTail
         /\ \E a \in AlphaNarrow : Set("Tack", Append(prods, a), 0, Len(prods) + 1, TRUE, ntail + 1)
@@ -495,7 +498,7 @@ Tack == /\ atend /\ ntail < MaxTail
 Init == /\ dt \in DtNames /\ D = DtInfo(dt) /\ prods \in Spines(dt) \cup {<<>>}
         /\ ned = 0 /\ lastpos = 0 /\ atend = TRUE /\ ntail = 0 /\ act = "Init"
         /\ ref = Ref(Flat(prods)) /\ impl = ImplRun(D.t, Flat(prods))
-Next == Subst \/ Insert \/ InsertEnd \/ Delete \/ WrapAll \/ WrapOne \/ Repeat2 \/ Tack
+Next == Subst \/ Insert \/ InsertEnd \/ Delete \/ WrapAll \/ WrapOne \/ Repeat2 \/ StrayClose \/ Tack
 Spec == Init /\ [][Next]_vars
 
 ---------------------------------------------------------------------------
@@ -510,16 +513,16 @@ IDt == ImplRes(impl, D.t, D.size)
 
 \* deviations of the code as it is that the model exhibits: every one passes a marked code point or a marked kind of format
 KnownRefFlags == {"nN", "tab", "struct-pad", "zero-count", "shape-blank"}
-KnownEvents == {"null-head", "struct-in-first-member"}
+KnownEvents == {"null-head", "struct-in-first-member", "stray-close"}
 Agree(v, i) == \/ v = "unspecified" /\ i \in {"accept", "reject"}
                \/ v = "compatible" /\ i = "accept"
                \/ v = "incompatible" /\ i = "reject"
 Marked == ref.flags \cap KnownRefFlags # {} \/ impl.ev \cap KnownEvents # {}
 
 \* the transcription never accepts a buffer the reference calls incompatible ...
-NoFalseAccept == Case => /\ impl.res # "early"
-                         /\ ICalc = "accept" => VCalc # "incompatible"
-                         /\ (HasDt /\ IDt = "accept") => VDt # "incompatible"
+NoFalseAccept == "stray-close" \notin impl.ev =>
+                   /\ ICalc = "accept" => VCalc # "incompatible"
+                   /\ (HasDt /\ IDt = "accept") => VDt # "incompatible"
 \* ... it crashes or hangs only on formats that are incompatible or carry a marked feature ...
 ImplAgreesOffMarked == Case => (Agree(VCalc, ICalc) \/ Marked)
 ImplAgreesOffMarkedDt == (Case /\ HasDt) => (Agree(VDt, IDt) \/ Marked)
